@@ -20,12 +20,16 @@ floating-point number), `|μ̂ᵢ − μ(ηᵢ)| ≤ muErr` (link accuracy `ExpL
   `μ̂ ⊘ (μ̂⊗μ̂)` and a Lipschitz bound of `(y−μ)/μ` in `η`).
 
 C10 — A FULL RUN OF THE MODEL'S LM LOOP on a model linear in the parameters (ℝ, exact solver), namespace
-`Cv.Rounding8.LMrun` (`LinModel`: the linear model seen through the evaluator interface `LMEval` of `lmG`):
+`Cv.Rounding8.LMrun`.  `LinModel E WF …`: the linear model seen through the evaluator interface `LMEval` of `lmG`,
+with the evaluator laws RELATIVE TO THE TAPE INVARIANT `WF` (`EvalLawsOn`; the unrestricted `EvalLaws` is
+unsatisfiable for the source's evaluator, `C10Deep.tapeEval_not_evalLaws`); `tapeEval_linModel`: `tapeEval prog xs ys`
+of an RPN program linear in its parameters IS a `LinModel` w.r.t. `WFSt` (example: `p0 + p1·x`), so everything
+below is about `lm prog …` on the shared tape:
 * `lmBody_cases'` (Lemmas)  every outcome of one pass with its data;  `pass_linear` (Lemmas): the invariant `LinInv`
   is kept, the `JᵀJ`-distance to any least-squares solution never increases and contracts by `q = Λκ/(1+Λκ)` unless
   the pass raises the stop flag (a step is rejected only AT a least-squares solution)
 * `lmLoop_linear`     `‖θ' − θ*‖²_A ≤ q^fuel·‖θ − θ*‖²_A` for the state `lmLoop` returns, unless a stop test fired
-* `linInv_start`      the start state satisfies the invariant with `Λ = max(μ₀, 2)`
+* `linInv_start`      the start state satisfies the invariant with `Λ = max(μ₀, 2)` (`μ₀ > 0`, `ν₀ = 2` derived, `τ > 0`)
 * `stop_eps1`         stopped by `eps1`:  `Σᵢ|(Jᵀ(y−Jθ))ᵢ| ≤ eps1`
 * `stop_eps2`         stopped by `eps2`:  `(Jᵀ(y−Jθ))ᵢ² ≤ (Σⱼ Bᵢⱼ²)·(eps2(‖θ‖₂+eps2))²`
 * `errA_le_of_grad` (+ `weighted_cs`)   `‖θ − θ*‖²_A ≤ κ·Σᵢ (Jᵀ(y−Jθ))ᵢ²/dᵢ`
@@ -216,7 +220,7 @@ open Cv Cv.Opt Cv.C10 Cv.C10D Cv.Rounding7.LM Finset
 section
 variable [Inhabited ℝ] [BEq ℝ] [LawfulBEq ℝ] [Transc ℝ] [FMax ℝ]
 variable {σ : Type}
-variable {E : LMEval σ ℝ} {R Jf : List ℝ → List ℝ} {Jl : List ℝ} {yv : ℕ → ℝ} {p : ℕ}
+variable {E : LMEval σ ℝ} {WF : σ → Prop} {R Jf : List ℝ → List ℝ} {Jl : List ℝ} {yv : ℕ → ℝ} {p : ℕ}
 
 theorem lmLoop_of_stop (h : LMHP ℝ) (fuel : Nat) (s s' : LMSt σ ℝ) (hst : s.stop = true)
     (hl : lmLoop E h fuel s = some s') : s' = s := by
@@ -231,11 +235,11 @@ invariant (`LinInv`: in particular `μ ≤ Λ`, `Λ ≥ 2`), `lmLoop` with `fuel
 
 for every least-squares solution `θ*`: as long as neither stop test fires, every pass contracts (every step is
 accepted — `lm_linear_rho_pos` — and the damping stays `≤ Λ` — `lm_mu_update_lt_two`). -/
-theorem lmLoop_linear (L : LinModel E R Jf Jl yv p) (h : LMHP ℝ) (Lam κ : ℝ) (hLam : 2 ≤ Lam) (hκ : 0 ≤ κ)
+theorem lmLoop_linear (L : LinModel E WF R Jf Jl yv p) (h : LMHP ℝ) (Lam κ : ℝ) (hLam : 2 ≤ Lam) (hκ : 0 ≤ κ)
     (hκD : ∀ x : ℕ → ℝ, bD (Jm Jl p) E.n p x x ≤ κ * bA (Jm Jl p) E.n p x x)
     (θs : ℕ → ℝ) (hs : IsLS (Jm Jl p) E.n p yv θs) (fuel : Nat) (s s' : LMSt σ ℝ)
-    (hI : LinInv E R Jf Jl yv p Lam s) (hl : lmLoop E h fuel s = some s') :
-    LinInv E R Jf Jl yv p Lam s' ∧
+    (hI : LinInv E WF R Jf Jl yv p Lam s) (hl : lmLoop E h fuel s = some s') :
+    LinInv E WF R Jf Jl yv p Lam s' ∧
     errA Jl E.n p θs (E.vals s'.tp) ≤ errA Jl E.n p θs (E.vals s.tp) ∧
     (s'.stop = true ∨
       errA Jl E.n p θs (E.vals s'.tp) ≤ (Lam * κ / (1 + Lam * κ)) ^ fuel * errA Jl E.n p θs (E.vals s.tp)) := by
@@ -272,13 +276,19 @@ theorem lmLoop_linear (L : LinModel E R Jf Jl yv p) (h : LMHP ℝ) (Lam κ : ℝ
                   mul_le_mul_of_nonneg_left hcon1 (pow_nonneg hq0 _)
               _ = _ := by rw [pow_succ]; ring
 
-/-- the start state satisfies the invariant with `Λ = max(μ₀, 2)` (for a positive initial damping
-`μ₀ = τ·max diag(JᵀJ)`, `C10D.statMax_diag_pos`) -/
-theorem linInv_start (L : LinModel E R Jf Jl yv p) (h : LMHP ℝ) (θ0 : List ℝ) (hθ : θ0.length = p)
-    (s0 : LMSt σ ℝ) (hs0 : lmStart E h θ0 = some s0) (hmu : 0 < s0.mu) (hnu : 0 < s0.nu) :
-    LinInv E R Jf Jl yv p (max s0.mu 2) s0 := by
-  obtain ⟨hB, hv⟩ := lmStart_belongs E R Jf L.laws h θ0 s0 hs0
-  exact ⟨hB, by rw [hv]; exact hθ, hmu, hnu, Or.inl (le_max_left _ _)⟩
+/-- **the start state of `lmG` satisfies the invariant** with `Λ = max(μ₀, 2)`: the tape state is well formed, the
+stored quantities belong to `θ₀`, `ν₀ = 2`, and `μ₀ = τ·max diag(JᵀJ) > 0` for `τ > 0` (no vanishing column) -/
+theorem linInv_start (L : LinModel E WF R Jf Jl yv p) (h : LMHP ℝ) (hτ : 0 < h.tau) (hp : 0 < p)
+    (θ0 : List ℝ) (hθ : θ0.length = p) (s0 : LMSt σ ℝ) (hs0 : lmStart E h θ0 = some s0) :
+    LinInv E WF R Jf Jl yv p (max s0.mu 2) s0 := by
+  obtain ⟨hwf, hB, hv, hnu, hmu⟩ := invW_start E WF R Jf L.laws h θ0 s0 hs0
+  have hjtj : jtjOf E.n Jl = some s0.jtj := by
+    have := hB.2.1
+    rwa [hv, L.hJf θ0 hθ] at this
+  have hpos := statMax_diag_pos L.hF E.n p L.hn hp Jl s0.jtj L.hJl hjtj L.hcol
+  refine ⟨hwf, hB, by rw [hv]; exact hθ, ?_, by rw [hnu]; norm_num, Or.inl (le_max_left _ _)⟩
+  rw [hmu, hθ]
+  exact mul_pos hτ hpos
 
 /-! #### the two stop tests -/
 
@@ -339,11 +349,11 @@ theorem errA_le_of_grad (J : ℕ → ℕ → ℝ) (n p : ℕ) (κ : ℝ) (hκ : 
 
 /-- **stop by `eps1`** (`jtr.inf_norm() <= eps1`, the one row sum `Σ|(Jᵀr)ᵢ|`): the returned parameters
 satisfy `Σᵢ |(Jᵀ(y − Jθ))ᵢ| ≤ eps1`, hence (`errA_le_of_grad`) `‖θ − θ*‖²_A ≤ κ·Σᵢ gᵢ²/dᵢ ≤ κ·eps1²/min dᵢ`. -/
-theorem stop_eps1 (L : LinModel E R Jf Jl yv p) (eps1 : ℝ) (s : LMSt σ ℝ) (hB : Belongs E R Jf s)
+theorem stop_eps1 (L : LinModel E WF R Jf Jl yv p) (eps1 : ℝ) (s : LMSt σ ℝ) (hB : Belongs E R Jf s)
     (hlen : (E.vals s.tp).length = p) (hstop : infNormRow s.jtr ≤ eps1) :
     ∑ i ∈ range p, |grad (Jm Jl p) E.n p yv (θv (E.vals s.tp)) i| ≤ eps1 := by
   obtain ⟨_, _, hjtr⟩ := hB
-  rw [L.hJf] at hjtr
+  rw [L.hJf _ hlen] at hjtr
   obtain ⟨hRl, _⟩ := L.hR (E.vals s.tp) hlen
   obtain ⟨hbl, hb⟩ := jtr_entry E.n p L.hn Jl (R (E.vals s.tp)) s.jtr L.hJl hRl hjtr
   have : infNormRow s.jtr = ∑ i ∈ range p, |grad (Jm Jl p) E.n p yv (θv (E.vals s.tp)) i| := by
@@ -359,7 +369,7 @@ theorem stop_eps1 (L : LinModel E R Jf Jl yv p) (eps1 : ℝ) (s : LMSt σ ℝ) (
 returned unchanged and every component of the gradient obeys
 `(Jᵀ(y − Jθ))ᵢ² ≤ (Σⱼ Bᵢⱼ²)·(eps2·(‖θ‖₂ + eps2))²`, `B = JᵀJ + μ·diag(JᵀJ)` the damped matrix of that pass
 (then `errA_le_of_grad` bounds `‖θ − θ*‖²_A`). -/
-theorem stop_eps2 (L : LinModel E R Jf Jl yv p) (hsqrt : ∀ x : ℝ, Transc.sqrt x = Real.sqrt x) (eps2 : ℝ)
+theorem stop_eps2 (L : LinModel E WF R Jf Jl yv p) (hsqrt : ∀ x : ℝ, Transc.sqrt x = Real.sqrt x) (eps2 : ℝ)
     (s : LMSt σ ℝ) (hB : Belongs E R Jf s) (hlen : (E.vals s.tp).length = p) (hmu : 0 < s.mu) (δ : List ℝ)
     (hsolve : luSolveVec (damp (E.vals s.tp).length s.mu s.jtj) s.jtr = some δ)
     (hsmall : norm2 δ ≤ eps2 * (norm2 (E.vals s.tp) + eps2)) :
@@ -383,6 +393,103 @@ theorem stop_eps2 (L : LinModel E R Jf Jl yv p) (hsqrt : ∀ x : ℝ, Transc.sqr
     _ ≤ (eps2 * (norm2 (E.vals s.tp) + eps2)) ^ 2 := pow_le_pow_left₀ h0 hsmall 2
 
 end
+
+end Cv.Rounding8.LMrun
+
+/-! #### the evaluator of the source on an RPN program linear in the parameters is a `LinModel` -/
+
+namespace Cv.Rounding8.LMrun
+open Cv Cv.AD Cv.Opt Cv.C10 Cv.C10D Cv.Rounding7.LM Finset
+
+section tape
+variable [Inhabited ℝ] [BEq ℝ] [LawfulBEq ℝ] [Transc ℝ] [FMax ℝ]
+
+/-- the constant Jacobian of a model `f(θ, x) = Σⱼ cf x j · θⱼ`, row-major, one row per data point -/
+def linJac (cf : ℝ → ℕ → ℝ) (p : ℕ) (xs : List ℝ) : List ℝ := xs.flatMap fun x => (List.range p).map (cf x)
+
+theorem linJac_length (cf : ℝ → ℕ → ℝ) (p : ℕ) (xs : List ℝ) : (linJac cf p xs).length = xs.length * p := by
+  induction xs with
+  | nil => simp [linJac]
+  | cons x xs ih =>
+    simp only [linJac, List.flatMap_cons, List.length_append, List.length_map, List.length_range,
+      List.length_cons] at ih ⊢
+    rw [ih]; ring
+
+theorem nth_linJac (cf : ℝ → ℕ → ℝ) (p : ℕ) (xs : List ℝ) (k j : ℕ) (hk : k < xs.length) (hj : j < p) :
+    nth (linJac cf p xs) (k * p + j) = cf (nth xs k) j := by
+  induction xs generalizing k with
+  | nil => simp at hk
+  | cons x xs ih =>
+    simp only [linJac, List.flatMap_cons]
+    cases k with
+    | zero =>
+      simp only [Nat.zero_mul, Nat.zero_add, nth]
+      rw [List.getD_eq_getElem?_getD, List.getElem?_append_left (by simpa using hj)]
+      simp [hj]
+    | succ k =>
+      have hk' : k < xs.length := by simpa using hk
+      have e : (k + 1) * p + j = ((List.range p).map (cf x)).length + (k * p + j) := by
+        simp only [List.length_map, List.length_range]; ring
+      simp only [nth] at ih ⊢
+      rw [e, List.getD_eq_getElem?_getD, List.getElem?_append_right (by omega), Nat.add_sub_cancel_left,
+        ← List.getD_eq_getElem?_getD]
+      have := ih k hk'
+      simpa [linJac] using this
+
+theorem nth_resOf (prog : List (Op ℝ)) (xs ys θ : List ℝ) (h : xs.length = ys.length) (k : ℕ)
+    (hk : k < xs.length) : nth (resOf prog xs ys θ) k = nth ys k - valOf prog θ (nth xs k) := by
+  induction xs generalizing ys k with
+  | nil => simp at hk
+  | cons x xs ih =>
+    cases ys with
+    | nil => simp at h
+    | cons y ys =>
+      cases k with
+      | zero => simp [resOf, nth]
+      | succ k =>
+        have := ih ys (by simpa using h) k (by simpa using hk)
+        simpa [resOf, nth] using this
+
+theorem jacOf_lin (prog : List (Op ℝ)) (cf : ℝ → ℕ → ℝ) (p : ℕ)
+    (hrow : ∀ (x : ℝ) (θ : List ℝ), θ.length = p → rowOf prog θ x = (List.range p).map (cf x))
+    (xs θ : List ℝ) (hθ : θ.length = p) : jacOf prog xs θ = linJac cf p xs := by
+  induction xs with
+  | nil => simp [jacOf, linJac]
+  | cons x xs ih =>
+    simp only [jacOf, linJac, List.flatMap_cons] at ih ⊢
+    rw [hrow x θ hθ, ih]
+
+/-- **`tapeEval` of an RPN program that is linear in its `p` parameters** (`f(θ,x) = Σⱼ cf x j·θⱼ`, derivative row
+`cf x ·`, for every parameter list of length `p`) **is a `LinModel`** with respect to the well-formedness invariant
+`WFSt` of the shared tape (`C10DeepEval.tapeEval_laws`) — so `pass_linear`, `lmLoop_linear`, `stop_eps1`,
+`stop_eps2` are statements about `lm prog …` of the source's evaluator. -/
+theorem tapeEval_linModel (prog : List (Op ℝ)) (xs ys : List ℝ) (hlen : xs.length = ys.length)
+    (hn : 0 < xs.length) (p : ℕ) (cf : ℝ → ℕ → ℝ)
+    (hval : ∀ (x : ℝ) (θ : List ℝ), θ.length = p → valOf prog θ x = ∑ j ∈ range p, cf x j * nth θ j)
+    (hrow : ∀ (x : ℝ) (θ : List ℝ), θ.length = p → rowOf prog θ x = (List.range p).map (cf x))
+    (hcol : ∀ i, i < p → ∃ k, k < xs.length ∧ cf (nth xs k) i ≠ 0)
+    (habs : ∀ x : ℝ, Transc.abs x = |x|) (hF : FMaxLaw ℝ) :
+    LinModel (tapeEval prog xs ys) WFSt (resOf prog xs ys) (jacOf prog xs) (linJac cf p xs)
+      (fun k => nth ys k) p where
+  laws := tapeEval_laws prog xs ys hlen
+  hJf := fun θ hθ => jacOf_lin prog cf p hrow xs θ hθ
+  hJl := linJac_length cf p xs
+  hn := hn
+  hR := by
+    intro θ hθ
+    refine ⟨resOf_length prog xs ys θ hlen, fun k hk => ?_⟩
+    have hk' : k < xs.length := hk
+    rw [nth_resOf prog xs ys θ hlen k hk', hval _ θ hθ]
+    congr 1
+    exact Finset.sum_congr rfl fun j hj => by rw [nth_linJac cf p xs k j hk' (Finset.mem_range.mp hj)]
+  hcol := by
+    intro i hi
+    obtain ⟨k, hk, hne⟩ := hcol i hi
+    exact ⟨k, hk, by rw [nth_linJac cf p xs k i hk hi]; exact hne⟩
+  habs := habs
+  hF := hF
+
+end tape
 
 end Cv.Rounding8.LMrun
 
@@ -489,8 +596,8 @@ noncomputable def E1 : LMEval (List ℝ) ℝ where
   fresh tp := tp
   n := 2
 
-theorem lin1 : LinModel E1 R1 (fun _ => [1, 1]) [1, 1] (fun k => if k = 0 then 1 else 3) 1 where
-  laws := ⟨fun θ tp res jac h => by
+theorem lin1 : LinModel E1 (fun _ => True) R1 (fun _ => [1, 1]) [1, 1] (fun k => if k = 0 then 1 else 3) 1 where
+  laws := EvalLaws.on ⟨fun θ tp res jac h => by
       simp only [E1, Option.some.injEq, Prod.mk.injEq] at h
       obtain ⟨rfl, rfl, rfl⟩ := h; exact ⟨rfl, rfl, rfl⟩,
     fun tp δ tp' res' h => by
@@ -498,7 +605,7 @@ theorem lin1 : LinModel E1 R1 (fun _ => [1, 1]) [1, 1] (fun k => if k = 0 then 1
       obtain ⟨rfl, rfl⟩ := h; exact ⟨rfl, rfl⟩,
     fun tp j h => by simp only [E1, Option.some.injEq] at h; exact h.symm,
     fun tp => rfl⟩
-  hJf := fun _ => rfl
+  hJf := fun _ _ => rfl
   hJl := rfl
   hn := by show 0 < 2; norm_num
   hR := by
@@ -537,10 +644,10 @@ example : bA (Jm [1, 1] 1) 2 1 (fun j => (fun _ => (0 : ℝ)) j - (fun _ => (2 :
       / A (Jm [1, 1] 1) 2 i i :=
   errA_le_of_grad _ 2 1 1 zero_le_one kappa1 (A_pos lin1) _ _ _ ls1
 
-example (h : LMHP ℝ) (s0 : LMSt (List ℝ) ℝ) (hs0 : lmStart E1 h [0] = some s0) (hmu : 0 < s0.mu)
-    (hnu : 0 < s0.nu) : LinInv E1 R1 (fun _ => [1, 1]) [1, 1] (fun k => if k = 0 then 1 else 3) 1
+example (h : LMHP ℝ) (hτ : 0 < h.tau) (s0 : LMSt (List ℝ) ℝ) (hs0 : lmStart E1 h [0] = some s0) :
+    LinInv E1 (fun _ => True) R1 (fun _ => [1, 1]) [1, 1] (fun k => if k = 0 then 1 else 3) 1
       (max s0.mu 2) s0 :=
-  linInv_start lin1 h [0] rfl s0 hs0 hmu hnu
+  linInv_start lin1 h hτ (by norm_num) [0] rfl s0 hs0
 
 /-- `lmStart` does return on this model (so `linInv_start` is about an existing state) -/
 example (h : LMHP ℝ) : ∃ s0, lmStart E1 h [0] = some s0 := by
@@ -550,5 +657,34 @@ example (h : LMHP ℝ) : ∃ s0, lmStart E1 h [0] = some s0 := by
     (by norm_num) (by norm_num) (by simp)
   unfold lmStart
   simp [E1, jtjOf, jtrOf, hc1, hc2]
+
+/-- the RPN program `p0 + p1·x` of the source's model-function interface -/
+def prog01 : List (AD.Op ℝ) := [.param 0, .param 1, .x, .mul, .add]
+noncomputable def cf01 (x : ℝ) (j : ℕ) : ℝ := if j = 0 then 1 else x
+
+theorem prog01_lin (x : ℝ) (θ : List ℝ) (hθ : θ.length = 2) :
+    valOf prog01 θ x = ∑ j ∈ range 2, cf01 x j * nth θ j ∧
+    rowOf prog01 θ x = (List.range 2).map (cf01 x) := by
+  obtain ⟨a, b, rfl⟩ : ∃ a b, θ = [a, b] := by
+    match θ, hθ with
+    | [a, b], _ => exact ⟨a, b, rfl⟩
+  constructor
+  · simp [valOf, sEval, sRun, sStep, prog01, sMul, sAdd, cf01, nth, Finset.sum_range_succ]
+    ring
+  · simp [rowOf, sEval, sRun, sStep, prog01, sMul, sAdd, cf01, List.range_succ]
+
+/-- **the evaluator of the source on `p0 + p1·x` with data `x = (0,1,2)`, `y = (1,3,5)` is a `LinModel`** (w.r.t.
+`WFSt`), so the LM-convergence theorems of this file apply to `lm prog01 …` -/
+example : LinModel (tapeEval prog01 [0, 1, 2] [1, 3, 5]) WFSt (resOf prog01 [0, 1, 2] [1, 3, 5])
+    (jacOf prog01 [0, 1, 2]) (linJac cf01 2 [0, 1, 2]) (fun k => nth ([1, 3, 5] : List ℝ) k) 2 :=
+  tapeEval_linModel prog01 [0, 1, 2] [1, 3, 5] rfl (by norm_num) 2 cf01
+    (fun x θ hθ => (prog01_lin x θ hθ).1) (fun x θ hθ => (prog01_lin x θ hθ).2)
+    (by
+      intro i hi
+      have : i = 0 ∨ i = 1 := by omega
+      rcases this with rfl | rfl
+      · exact ⟨0, by norm_num, by simp [cf01]⟩
+      · exact ⟨1, by norm_num, by simp [cf01, nth]⟩)
+    (fun _ => rfl) (fun _ _ => rfl)
 
 end Cv.Rounding8.LMrun.Examples
